@@ -23,6 +23,8 @@ SHAPES = [
     ("agree", [[1, 1], [1, 1]], False, T, dict(budget=1800, shard=8)),
     ("agree", [[0, 0], [0, 0]], True, T, dict(budget=1200, shard=6)),
     ("agree", [[0, 0]] * 3, False, T, dict(budget=2400, shard=9)),
+    ("agree", [[1, 1], [1, 1]], True, T, dict(budget=3000, shard=10)),
+    ("agree", [[0, 1]] * 3, False, T, dict(budget=3000, shard=10)),
 ]
 
 
